@@ -2,9 +2,13 @@
 
 proof:          lean/PdshVerif/Props/C02.lean (buffer loop of list_push_hostlist terminates / diverges, order
                 independence and idempotence of the specification, delete = first occurrence (unchanged) witnesses, ...)
-correspondence: the REAL pdsh binary built from /repo (`pdsh -R exec -f 1 -N <options> echo %h`: the hosts actually
-                contacted, in order; 4 s timeout = "never leaves opt_args") vs `pdshmodel hl xcl`
-                (Opt/Exclude.lean on the editable-list model of C16; regex answers from libc via harness/regex_oracle.c)
+correspondence: the REAL pdsh binary built from /repo (`pdsh -Q <options>`: the list pdsh goes on with, and
+                `pdsh -R exec -f 1 -N <options> echo %h`: the hosts actually contacted, in order; a timeout — re-tried
+                once with six times the time — = "never leaves opt_args") vs `pdshmodel hl xcl` (Opt/Exclude.lean on the
+                editable-list model of C16; regex answers from libc via harness/regex_oracle.c); the DETERMINISTIC
+                classes of vlib/xcl.py first (same command lines at every seed), then the random profiles; the real
+                hostlist.c in process (find / delete on range records) vs `hl edit` / `hl plspec`; exclusion files of
+                exactly 2^22-2 and 2^22-1 bytes of ranged text (the ceiling of list_push_hostlist)
 oracle:         the same command lines, by meaning, through `pdshmodel hl xspec` (Opt/ExcludeSpec.lean:
                 assembled targets minus every occurrence of every excluded name, regex filters, order kept)
 """
@@ -12,9 +16,12 @@ import json
 import os
 import re
 import subprocess
+import time
 
 from vlib.hostlist import HL, hx, unhx, names_field, Cli, VERIF_CORPUS
 from vlib.common import HARNESS
+from vlib.seqrun import run_batch
+from vlib import xcl as xclsys
 
 LEVEL = "proof"
 PROPS = "PdshVerif.Props.C02"
@@ -27,8 +34,11 @@ MANIFEST = dict(
     text="Theorems in lean/PdshVerif/Props/C02.lean about lean/PdshVerif/Opt/Exclude.lean; the compiled model is run "
          "against the real pdsh (built from /repo's working tree on every run) on generated argv mixing -w/-x options, "
          "`-` words, ^files, -^files, /re/ and -/re/ in random order with duplicates, overlaps, look-alike names and "
-         "exclusion files around the 4095-byte re-serialisation buffer; the hosts really contacted are compared with the "
-         "model and with the specification (assembled minus excluded, filtered), which yields the failing argv as replay.",
+         "exclusion files around the 4095-byte re-serialisation buffer — a deterministic enumeration of the classes the "
+         "property names (vlib/xcl.py) at every seed, then random profiles; the list pdsh goes on with (-Q) and the hosts "
+         "really contacted are compared with the model and with the specification (assembled minus excluded, filtered), "
+         "which yields the failing argv as replay; hostlist_find/hostlist_delete of the real hostlist.c on range records "
+         "against the list model and the plain-list specification; exclusion files at the 4 MiB ceiling.",
     design_ref="DESIGN.md section 5 C02",
     note="Lean 4.33 kernel; axioms propext/Classical.choice/Quot.sound at most (audited per theorem every run); "
          "hand-written model tied to opt.c/hostlist.c by differential execution of the real pdsh built from /repo; "
@@ -180,10 +190,12 @@ class Case:
         self.tags = set()
         self.timeout = 8
         self.wcoll_env = None    # value of the WCOLL environment variable (a file of `files`), None = unset
+        self.raw = {}        # name -> the bytes really written (comments, blank lines, #include ...; also files that are
+                             # only included); a file of `files` without an entry here holds one expression per line
 
     def to_json(self):
         return {"items": self.items, "opts": self.opts, "files": self.files, "tags": sorted(self.tags), "timeout": self.timeout,
-                "wcoll_env": self.wcoll_env}
+                "wcoll_env": self.wcoll_env, "raw": self.raw}
 
     @staticmethod
     def from_json(d):
@@ -194,17 +206,19 @@ class Case:
         c.tags = set(d.get("tags", []))
         c.timeout = d.get("timeout", 8)
         c.wcoll_env = d.get("wcoll_env")
+        c.raw = dict(d.get("raw") or {})
         return c
 
 
 def rebase(case, cwd):
     """files of a stored case live in the scratch directory of the run that wrote it: move them here"""
-    ren = {name: os.path.join(cwd, os.path.basename(name)) for name in case.files}
+    ren = {name: os.path.join(cwd, os.path.basename(name)) for name in list(case.files) + list(case.raw)}
     def sub(t):
-        for a, b in ren.items():
+        for a, b in sorted(ren.items(), key=lambda ab: -len(ab[0])):
             t = t.replace(a, b)
         return t
     case.files = {ren[k]: v for k, v in case.files.items()}
+    case.raw = {ren[k]: sub(v) for k, v in case.raw.items()}
     case.items = [(k, sub(t)) for k, t in case.items]
     case.opts = [(f, sub(a)) for f, a in case.opts]
     if case.wcoll_env:
@@ -469,28 +483,51 @@ def candidate_names(case):
     return out
 
 
-def run_real(cli, case):
-    args = ["-R", "exec", "-f", "1", "-N"]
-    for flag, arg in case.opts:
-        args += [flag, arg]
+TIMEOUTS = {"n": 0}       # confirmed hangs of the real pdsh in this run
+
+
+def run_real(cli, case, mode="exec"):
+    """mode exec: `pdsh -R exec -f 1 -N OPTIONS echo %h` — the hosts really contacted, in order;
+       mode list: `pdsh -Q OPTIONS` — the target list pdsh would go on with (no host is contacted; 40 times cheaper).
+       A listing pdsh itself cuts (`[truncated]`, 1 KiB buffer) is answered by an exec run instead."""
+    opts = [x for o in case.opts for x in o]
+    args = ["-R", "exec", "-f", "1", "-N"] + opts + ["echo", "%h"] if mode == "exec" else ["-Q"] + opts
     def go(timeout):
         if not case.wcoll_env:
-            return cli.run(args + ["echo", "%h"], timeout=timeout)
+            return cli.run(args, timeout=timeout)
         env = {"PATH": "/usr/bin:/bin", "HOME": cli.cwd, "LC_ALL": "C", "WCOLL": case.wcoll_env}
         try:
-            p = subprocess.run([cli.pdsh] + args + ["echo", "%h"], stdout=subprocess.PIPE, stderr=subprocess.PIPE,
+            p = subprocess.run([cli.pdsh] + args, stdout=subprocess.PIPE, stderr=subprocess.PIPE,
                                cwd=cli.cwd, env=env, timeout=timeout, stdin=subprocess.DEVNULL)
             return p.returncode, p.stdout, p.stderr
         except subprocess.TimeoutExpired as e:
             return "timeout", e.stdout or b"", e.stderr or b""
-    rc, out, err = go(case.timeout)
+    if TIMEOUTS["n"] >= 2:
+        # pdsh has hung twice in this run (each time confirmed by a long second wait): from now on one short
+        # wait per case, so that a tree that spins does not make the run take hours
+        rc, out, err = go(4)
+    else:
+        rc, out, err = go(case.timeout)
+        if rc == "timeout":
+            # a loaded machine is not a spinning pdsh: ask again with plenty of time
+            rc, out, err = go(30)
     if rc == "timeout":
-        # a loaded machine is not a spinning pdsh: ask again with plenty of time
-        rc, out, err = go(case.timeout * 6)
-    if rc == "timeout":
+        TIMEOUTS["n"] += 1
         return "timeout", None, b""
-    if rc == 0:
+    if rc == 0 and mode == "exec":
         return "ok", [l.decode("latin1") for l in out.split(b"\n") if l], err
+    if rc == 0:
+        lines = out.split(b"\n")
+        try:
+            i = lines.index(b"-- Target nodes --")
+        except ValueError:
+            return "garbled", None, err
+        text = b"\n".join(lines[i + 1:])
+        if text.endswith(b"\n"):
+            text = text[:-1]
+        if text.endswith(b"[truncated]"):
+            return run_real(cli, case, "exec")
+        return "ok", [h.decode("latin1") for h in text.split(b",") if h], err
     if b"no remote hosts specified" in err:
         return "nohosts", None, err
     if rc < 0 or rc >= 128 or b"Sanitizer" in err:
@@ -581,14 +618,33 @@ def model_spec(ctx, oracle, cases, d2):
 
 def write_files(case):
     for name, exprs in case.files.items():
+        if name not in case.raw:
+            with open(name, "w") as f:
+                f.write("".join(e + "\n" for e in exprs))
+    for name, text in case.raw.items():
         with open(name, "w") as f:
-            f.write("".join(e + "\n" for e in exprs))
+            f.write(text)
 
 
-def judge(ctx, cli, oracle, case, d2, dist, shrinking=False, pre=None):
+def judge(ctx, cli, oracle, case, d2, dist, shrinking=False, pre=None, modes=("list", "exec")):
+    """run the real pdsh on the case (the listing `-Q`, and/or the hosts really contacted), compare with the model and with
+    the specification; the first observation that shows a problem is the one reported"""
     write_files(case)
     m, s, bad = pre if pre is not None else model_spec(ctx, oracle, [case], d2)[0]
-    impl = run_real(cli, case)
+    tags = set()
+    for mode in modes:
+        tags = judge_one(ctx, cli, oracle, case, d2, dist, shrinking, m, s, bad, mode)
+        if tags:
+            break
+    return tags
+
+
+def judge_one(ctx, cli, oracle, case, d2, dist, shrinking, m, s, bad, mode):
+    t0 = time.time()
+    impl = run_real(cli, case, mode)
+    if not shrinking:
+        dist["seconds-" + mode] = round(dist.get("seconds-" + mode, 0) + time.time() - t0, 2)
+    verb = "contacts" if mode == "exec" else "lists (-Q)"
     ikind, ihosts = norm(impl[0], impl[1])
     mkind, mhosts = parse_model(m)
     tags = set()
@@ -599,10 +655,12 @@ def judge(ctx, cli, oracle, case, d2, dist, shrinking=False, pre=None):
         if (mk, mh) != (ikind, ihosts):
             tags.add("model-vs-impl")
             if not shrinking:
-                ctx.disagreement("hl xcl model vs pdsh", "pdsh %s: contacted %s %s, model %s %s" % (
-                    " ".join("%s '%s'" % o for o in case.opts)[:300], ikind, (ihosts or [])[:40], mk, (mh or [])[:40]),
-                    shrink(ctx, cli, oracle, case, d2, "model-vs-impl").to_json())
-    dist["impl-" + ikind] = dist.get("impl-" + ikind, 0) + (0 if shrinking else 1)
+                ctx.disagreement("hl xcl model vs pdsh", "pdsh %s: %s %s %s, model %s %s" % (
+                    " ".join("%s '%s'" % o for o in case.opts)[:300], verb, ikind, (ihosts or [])[:40], mk, (mh or [])[:40]),
+                    shrink(ctx, cli, oracle, case, d2, "model-vs-impl", mode).to_json())
+    if not shrinking:
+        dist["impl-" + ikind] = dist.get("impl-" + ikind, 0) + 1
+        dist["observed-" + mode] = dist.get("observed-" + mode, 0) + 1
     # --- oracle
     if s.startswith("ok "):
         shosts = [n.decode("latin1") for n in names_field(s[3:])[2]]
@@ -613,32 +671,33 @@ def judge(ctx, cli, oracle, case, d2, dist, shrinking=False, pre=None):
                 sig = "badregex-ignored"
                 tags.add("spec:" + sig)
                 if not shrinking:
-                    ctx.offender(sig, "pdsh goes on with a pattern regcomp() refuses: %s" % bad, shrink(ctx, cli, oracle, case, d2, "spec:" + sig).to_json())
+                    ctx.offender(sig, "pdsh goes on with a pattern regcomp() refuses: %s" % bad,
+                                 shrink(ctx, cli, oracle, case, d2, "spec:" + sig, mode).to_json())
         elif (sk, sh) != (ikind, ihosts):
             sig = classify(case, (ikind, ihosts), shosts)
             if "model-vs-impl" in tags:
                 sig += ":impl!=model"
             tags.add("spec:" + sig)
             if not shrinking:
-                ctx.offender(sig, "pdsh %s: contacts %s %s, the specification says %s" % (
-                    " ".join("%s '%s'" % o for o in case.opts)[:300], ikind, (ihosts or [])[:30], shosts[:30]),
-                    shrink(ctx, cli, oracle, case, d2, "spec:" + sig).to_json())
-        else:
-            dist["spec-agrees"] = dist.get("spec-agrees", 0) + (0 if shrinking else 1)
-    else:
-        dist["spec-" + s.split(":")[0]] = dist.get("spec-" + s.split(":")[0], 0) + (0 if shrinking else 1)
+                ctx.offender(sig, "pdsh %s: %s %s %s, the specification says %s" % (
+                    " ".join("%s '%s'" % o for o in case.opts)[:300], verb, ikind, (ihosts or [])[:30], shosts[:30]),
+                    shrink(ctx, cli, oracle, case, d2, "spec:" + sig, mode).to_json())
+        elif not shrinking:
+            dist["spec-agrees"] = dist.get("spec-agrees", 0) + 1
+    elif not shrinking:
+        dist["spec-" + s.split(":")[0]] = dist.get("spec-" + s.split(":")[0], 0) + 1
     return tags
 
 
-def shrink(ctx, cli, oracle, case, d2, tag):
+def shrink(ctx, cli, oracle, case, d2, tag, mode="exec"):
     """drop items one at a time while the same kind of problem stays; options rewritten plainly"""
     ctx.nshrunk = getattr(ctx, "nshrunk", 0) + 1
-    if ctx.nshrunk > 10 or case.wcoll_env:      # ($WCOLL cases are short; their options are not rewritten)
+    if ctx.nshrunk > 6 or case.wcoll_env or TIMEOUTS["n"] > 0:      # a tree that hangs is not shrunk (every try waits); $WCOLL cases are short
         return case
     import random
     rng = random.Random(1)
     cur = case
-    budget = 30
+    budget = 20
     changed = True
     while changed and budget > 0:
         changed = False
@@ -648,6 +707,7 @@ def shrink(ctx, cli, oracle, case, d2, tag):
             t = Case()
             t.items = cur.items[:i] + cur.items[i + 1:]
             t.files = {k: v for k, v in cur.files.items() if any(x == k for _, x in t.items)}
+            t.raw = {k: v for k, v in cur.raw.items() if k in t.files or k not in cur.files}
             t.tags = set(cur.tags)
             t.timeout = cur.timeout
             t.opts = [(("-w" if k in ("tgt", "tfile", "keep") else "-x"),
@@ -655,7 +715,7 @@ def shrink(ctx, cli, oracle, case, d2, tag):
                       for k, x in t.items]
             budget -= 1
             try:
-                if t.items and tag in judge(ctx, cli, oracle, t, d2, {}, shrinking=True):
+                if t.items and tag in judge(ctx, cli, oracle, t, d2, {}, shrinking=True, modes=(mode,)):
                     cur = t
                     changed = True
                     break
@@ -670,12 +730,52 @@ def probe_d2(cli):
     f = os.path.join(cli.cwd, "probe_d2")
     with open(f, "w") as fh:
         fh.write("".join(n + "\n" for n in names))
-    rc, out, err = cli.run(["-R", "exec", "-f", "1", "-N", "-w", "keep1,h1000q", "-x", "^" + f, "echo", "%h"], timeout=4)
+    args = ["-R", "exec", "-f", "1", "-N", "-w", "keep1,h1000q", "-x", "^" + f, "echo", "%h"]
+    rc, out, err = cli.run(args, timeout=5)
+    if rc == "timeout":
+        # a loaded machine is not a spinning pdsh: only a second, generous wait decides
+        rc, out, err = cli.run(args, timeout=40)
     if rc == "timeout":
         return False
     if rc == 0 and out.split() == [b"keep1"]:
         return True
     return None
+
+
+CUT = (1 << 22) - 1       # Props/C02 exclusion_file_whole / exclusion_file_cut: the ranged form is cut from this length on
+
+
+def big_xfile(ctx, cli, ln, dist):
+    """F02-XFILE-4MIB on the real pdsh: an exclusion file whose ranged form is exactly `ln` bytes (the model is
+    quadratic in the number of names, so a file of 2^22 bytes is judged by the specification alone: the first, the
+    middle and the last name of the file are targets next to `keep1`; all three are excluded, keep1 must be what is left).
+    The replay is the recipe (the file has 4 MiB)."""
+    names = xclsys.xfile_names(ln)
+    f = os.path.join(cli.cwd, "bigx_%d" % ln)
+    with open(f, "w") as fh:
+        fh.write("".join(n + "\n" for n in names))
+    hit = [names[0], names[len(names) // 2], names[-1]]
+    args = ["-Q", "-w", "keep1," + ",".join(hit), "-x", "^" + f]
+    rc, out, err = cli.run(args, timeout=20)
+    if rc == "timeout":
+        rc, out, err = cli.run(args, timeout=90)      # (0.6 s on an idle machine)
+    os.unlink(f)
+    got = out.split(b"\n")[-2].decode("latin1").split(",") if rc == 0 and out.count(b"\n") >= 2 else None
+    dist["xfile-%d" % ln] = "ok" if got == ["keep1"] else "timeout" if rc == "timeout" else "excluded-listed" if got else "rc%s" % rc
+    case = {"recipe": "big-xfile", "ranged-length": ln, "names": "vlib.xcl.xfile_names(%d), one per line" % ln,
+            "argv": ["-Q", "-w", "keep1," + ",".join(hit), "-x", "^FILE"]}
+    if got == ["keep1"]:
+        return True
+    if rc == "timeout":
+        ctx.offender("spin:xfile>=4MiB", "pdsh does not answer within 90 s on an exclusion file whose ranged form has %d bytes" % ln, case)
+    elif got is not None and set(got) <= set(["keep1"] + hit) and "keep1" in got:
+        ctx.offender("excluded-contacted:xfile>=4MiB" if ln >= CUT else "excluded-contacted:xfile<4MiB",
+                     "exclusion file whose ranged form has %d bytes: pdsh still lists %s (all three are in the file)" % (
+                         ln, [h for h in got if h != "keep1"]), case)
+    else:
+        ctx.offender("wrong-list:xfile-big", "exclusion file whose ranged form has %d bytes: pdsh rc=%s lists %s, stderr %r" % (
+            ln, rc, got, err[-200:]), case)
+    return False
 
 
 def probe_2br(cli):
@@ -695,6 +795,60 @@ def probe_2br(cli):
     if all(asfound):
         return False
     return None
+
+
+# ------------------------------------------------------------------ library level
+NAME_OPS = ("push", "find", "delete", "delete_host")
+
+
+def enc_op(op):
+    w = op.split(" ", 1)
+    return w[0] + " " + hxs(w[1]) if w[0] in NAME_OPS and len(w) > 1 else op
+
+
+def lib_level(ctx, hl, histories, dist):
+    """hostlist_find / hostlist_delete of the REAL hostlist.c (in-process harness) on lists whose records are ranges,
+    against the editable-list model (`hl edit`) and the plain-list specification (`hl plspec`)"""
+    eseqs = [[enc_op(o) for o in h] for h in histories]
+    impl = run_batch([hl.exe], eseqs, env=hl.env, timeout=600)
+    text = "".join(l + "\n" for s in eseqs for l in s)
+    ml = ctx.model("hl", text, args=["edit"])
+    sl = [a.split(" # ")[0] for a in ctx.model("hl", text, args=["plspec"])]
+    pos = 0
+    for h, (ans, crash) in zip(histories, impl):
+        m, sp = ml[pos:pos + len(h)], sl[pos:pos + len(h)]
+        pos += len(h)
+        dist["lib-histories"] = dist.get("lib-histories", 0) + 1
+        case = {"ops": h}
+        if crash is not None:
+            dist["lib-crash"] = dist.get("lib-crash", 0) + 1
+            ctx.offender("lib:crash", "hostlist.c dies on %s: %s" % (h, crash[-300:]), case)
+            continue
+        if ans != m and not any(a.startswith("ub:") or a == "DEAD" for a in m):
+            k = next(i for i in range(len(h)) if i >= len(ans) or i >= len(m) or ans[i] != m[i])
+            ctx.disagreement("hl edit model vs hostlist.c", "history %s: op %d `%s` impl `%s` model `%s`" % (
+                h, k, h[k], ans[k] if k < len(ans) else None, m[k] if k < len(m) else None), case)
+        bad = [i for i in range(len(h)) if h[i].split()[0] in ("find", "delete", "hosts", "count") and
+               (i >= len(ans) or ans[i] != sp[i])]
+        if bad:
+            k = bad[0]
+            op = h[k].split()[0]
+            sig = "lib:" + {"find": "find-wrong", "delete": "delete-count", "hosts": "wrong-hosts-left",
+                            "count": "count"}[op]
+            ctx.offender(sig, "hostlist.c, history %s: op %d `%s` answers `%s`, the plain-list specification `%s`" % (
+                h, k, h[k], ans[k] if k < len(ans) else None, sp[k]), case)
+        else:
+            dist["lib-agrees"] = dist.get("lib-agrees", 0) + 1
+
+
+def modes_for(case, prof, spec_answer):
+    """which observations a case gets: the listing always; the hosts really contacted (one fork per host) for every
+    corpus / random / replayed case, and for every fifth case of the systematic classes"""
+    if not prof.startswith("sys:"):
+        return ("list", "exec")
+    if getattr(case, "sysidx", 0) % 5 == 0:
+        return ("list", "exec")
+    return ("list",)
 
 
 def load_corpus():
@@ -726,7 +880,15 @@ def run(ctx):
                    "exclusion files whose ranged form is 4093..4097 / 8191.. bytes), /re/ and -/re/ (anchors, classes, "
                    "alternation, patterns regcomp refuses), duplicates and overlaps on purpose, options in random order and "
                    "merged with commas; target SOURCE: -w words, -w ^file, and the file named by $WCOLL with no target word "
-                   "in any option (or $WCOLL set and overridden by -w); non-trivial = >= 3 assembled hosts, >= 1 exclusion or filter that removes at least one "
+                   "in any option (or $WCOLL set and overridden by -w); BEFORE the random profiles the deterministic classes of "
+                   "vlib/xcl.py (sys:*): every permutation of targets / spanning exclusion / filter, every exclusion source x "
+                   "every target source (incl. files with comments, blank lines, #include, blank-separated names), look-alike "
+                   "families (prefix, padding, suffix, case, dots/dashes, all-digit, tails around 2^25 and 2^32, un-numbered) "
+                   "with each member excluded alone and each member alone surviving all others, duplicates at every "
+                   "position, 36 patterns as keep and drop filters, filters hitting every position of a range, host number 0 "
+                   "at every position of an exclusion, two-bracket words, exclusion files of 4093..4097 / 8190..8193 bytes, "
+                   "empty pieces, blanks behind the dash; library level: find/delete histories on range records; non-trivial = "
+                   ">= 3 assembled hosts, >= 1 exclusion or filter that removes at least one "
                    "and keeps at least one host; distinct = distinct option list"}
     dist = {"profiles": {}}
     cli = Cli(ctx)
@@ -742,7 +904,10 @@ def run(ctx):
         if br2 is None:
             ctx.broken.append(("C-BROKEN", "F02-2BR probe", "the two-bracket sub-tests on the real pdsh disagree"))
         PROBED["2br"] = bool(br2)
-        if ctx.replay:
+        rcase = json.load(open(ctx.replay))["case"] if ctx.replay else {}
+        if "ops" in rcase or "recipe" in rcase:
+            cases, profs = [], []       # a library-level history / a big exclusion file: below
+        elif ctx.replay:
             cases = [rebase(Case.from_json(json.load(open(ctx.replay))["case"]), cli.cwd)]
             profs = ["replay"]
         else:
@@ -750,6 +915,11 @@ def run(ctx):
             for c in load_corpus():
                 cases.append(rebase(c, cli.cwd))
                 profs.append("corpus")
+            # the deterministic classes (vlib/xcl.py): the same command lines at every seed
+            for k, c in enumerate(xclsys.systematic(Case, cli.cwd, thorough=not ctx.quick())):
+                c.sysidx = k
+                cases.append(c)
+                profs.append([t for t in c.tags if t.startswith("sys:")][0])
             n = 260 if ctx.quick() else 5000
             profiles = ["free", "free", "free", "dup", "dup", "regex", "regex", "2br", "big", "span", "firstrange",
                         "envwcoll", "envwcoll"]
@@ -768,18 +938,34 @@ def run(ctx):
             ctx.broken.append(("C-BROKEN", "check machinery", repr(e)))
             pres, cases = [], []
         for case, prof, pre in zip(cases, profs, pres):
+            if TIMEOUTS["n"] >= 12:
+                ctx.broken.append(("C-BROKEN", "real pdsh", "pdsh did not answer 12 times in this run (each reported as an "
+                                   "offender): the remaining %d cases were not executed" % (len(cases) - cov["evaluations"])))
+                break
             cov["evaluations"] += 1
             dist["profiles"][prof] = dist["profiles"].get(prof, 0) + 1
             try:
-                judge(ctx, cli, oracle, case, d2, dist, pre=pre)
+                judge(ctx, cli, oracle, case, d2, dist, pre=pre, modes=modes_for(case, prof, pre[1]))
             except Exception as e:     # noqa
                 ctx.broken.append(("C-BROKEN", "check machinery", "%r on %s" % (e, json.dumps(case.to_json())[:600])))
                 break
-            for name in case.files:
+            for name in list(case.files) + list(case.raw):
                 try:
                     os.unlink(name)
                 except OSError:
                     pass
+        # exclusion files at the 4 MiB ceiling of list_push_hostlist (real pdsh vs specification; open finding)
+        if d2 and (not ctx.replay or "recipe" in rcase):
+            lens = [rcase["ranged-length"]] if ctx.replay else [CUT - 1, CUT] if ctx.quick() else \
+                [CUT - 1, CUT, 2 * CUT + 2, 9000000]
+            for ln in lens:
+                try:
+                    big_xfile(ctx, cli, ln, dist)
+                    cov["evaluations"] += 1
+                    if dist.get("xfile-%d" % ln) == "timeout":
+                        break       # (reported; the longer files would only take longer)
+                except Exception as e:     # noqa
+                    ctx.broken.append(("C-BROKEN", "check machinery (big exclusion file)", repr(e)))
         # distinct / non-trivial are counted on a cheap re-expansion (no further runs)
         for case in cases:
             asm = assembled_names(case)
@@ -791,6 +977,17 @@ def run(ctx):
                 cov["samples"].append({"argv": [x for o in case.opts for x in o]})
     hl = HL(ctx)
     dist["probed-variant"] = hl.probed()
+    if hl.build():
+        if ctx.replay:
+            rc = json.load(open(ctx.replay))["case"]
+            hist = [rc["ops"]] if "ops" in rc else []
+        else:
+            hist = xclsys.lib_histories(thorough=not ctx.quick())
+        try:
+            lib_level(ctx, hl, hist, dist)
+            cov["evaluations"] += len(hist)
+        except Exception as e:     # noqa
+            ctx.broken.append(("C-BROKEN", "check machinery (library level)", repr(e)))
     cov["distribution"] = dist
     cov["traces_validated_against_impl"] = cov["evaluations"]
     for b in ctx.broken[:4]:
@@ -804,10 +1001,15 @@ def run(ctx):
         ctx.log("offender signatures not covered by an open finding:", json.dumps(sigs, sort_keys=True))
     return ctx.finish(
         LEVEL, cov,
-        assumptions=["a ^file holds one host expression per line (how files are read: C10)",
+        assumptions=["how a ^file is READ is C10's model: here a file is the list of expressions its lines hold (files with "
+                     "comments, blank lines, blanks around names and one level of #include are written as such and "
+                     "handed to the model as that list)",
                      "regular expressions contain no top-level comma (the word splitter would cut them)",
-                     "libc regcomp/regexec decide what a pattern matches", "malloc never fails",
-                     "no misc module supplies or filters targets, WCOLL is unset"],
+                     "libc regcomp/regexec (REG_EXTENDED|REG_NOSUB, eflags 0) decide what a pattern matches; the "
+                     "theorems assume nothing about WHAT matches, only that the verdict is a function of (pattern, name)",
+                     "malloc never fails", "no misc module supplies or filters targets",
+                     "exclusion files whose ranged form reaches 4 MiB: the real pdsh is compared with the "
+                     "specification only (the model is quadratic in the number of names)"],
         trusted_base=["Lean 4.33 kernel", "axioms: propext, Classical.choice, Quot.sound at most (audited per theorem)",
                       "hand-written model lean/PdshVerif/Opt/Exclude.lean (+ Hostlist/*) tied to the code by differential "
                       "execution of the real pdsh", "Gen/Hostlist.lean regenerated from /repo (constants, probed switches); D2 "
